@@ -382,7 +382,7 @@ func (s *swapChecker) run() {
 				}
 			}
 			// a helper of the same package: the rule follows the slice into it
-			if callee != nil && callee.Pkg() == s.pkg.Types {
+			if callee != nil && callee.Pkg() != nil && s.c.ByPath[callee.Pkg().Path()] != nil && (callee.Pkg().Path() == s.c.Mod || strings.HasPrefix(callee.Pkg().Path(), s.c.Mod+"/")) {
 				for ai, a := range x.Args {
 					if a == n && s.follow(callee, ai) {
 						s.r.inst("%s: passes the state slice to helper %s (rule applied there)", s.name, callee.Name())
@@ -448,9 +448,13 @@ func (s *swapChecker) follow(callee *types.Func, ai int) bool {
 		return true
 	}
 	var fd *ast.FuncDecl
-	for _, f := range s.pkg.Syntax {
+	cpkg := s.c.ByPath[callee.Pkg().Path()] // the helper may live in another package of the module (ints.Reverse)
+	if cpkg == nil {
+		return false
+	}
+	for _, f := range cpkg.Syntax {
 		for _, d := range f.Decls {
-			if x, ok := d.(*ast.FuncDecl); ok && s.pkg.TypesInfo.Defs[x.Name] == types.Object(callee) && x.Body != nil {
+			if x, ok := d.(*ast.FuncDecl); ok && cpkg.TypesInfo.Defs[x.Name] == types.Object(callee) && x.Body != nil {
 				fd = x
 			}
 		}
@@ -460,8 +464,8 @@ func (s *swapChecker) follow(callee *types.Func, ai int) bool {
 		return false
 	}
 	s.visited[callee] = true
-	h := &swapChecker{c: s.c, r: s.r, pkg: s.pkg, fd: fd, slots: map[types.Object]bool{sig.Params().At(ai): true}, peers: s.peers, visited: s.visited}
-	h.name = s.pkg.Name + "." + callee.Name()
+	h := &swapChecker{c: s.c, r: s.r, pkg: cpkg, fd: fd, slots: map[types.Object]bool{sig.Params().At(ai): true}, peers: s.peers, visited: s.visited}
+	h.name = cpkg.Name + "." + callee.Name()
 	h.sfn = s.c.Prog.FuncValue(callee)
 	if h.sfn != nil {
 		h.pr = NewProver(s.c, h.sfn)
